@@ -505,6 +505,66 @@ def run_case(case, info=None):
     return obs
 
 
+def two_runnables_check():
+    """A specification with TWO checkpointing runnables (each writes its own checkpoint), interrupted while the second
+    one runs, restarted with both checkpoint files given (`-c a -c b`, in either order): the final parameters must be
+    those of the uninterrupted run.  -> list of (key, text, replay)"""
+    d = os.path.join(WORK, "runs", "two-runnables")
+    shutil.rmtree(d, ignore_errors=True)
+    os.makedirs(d)
+    T, N = 9, 4
+
+    def cfg(tag, it1, it2):
+        ds = [_normal("d1", "x", [0.7, -0.4], [1.3, 0.8], [0.1, 0.2]), _normal("d2", "y", [-1.1], [0.6], [0.5])]
+        # (each optimizer has its own target: two optimizers over one cached joint cannot back-propagate twice)
+        j1 = {"id": "joint1", "type": "JointDistributionModel", "distributions": ds[:1]}
+        j2 = {"id": "joint2", "type": "JointDistributionModel", "distributions": ds[1:]}
+        mk = lambda i, par, its: {"id": f"opt{i}", "type": "Optimizer", "algorithm": "torch.optim.Adam",
+                                  "options": {"lr": 0.05}, "maximize": True, "iterations": its,
+                                  "checkpoint": os.path.join(d, f"{tag}_ck{i}.json"), "checkpoint_frequency": 1,
+                                  "loss": f"joint{i}", "parameters": [par]}
+        fn = os.path.join(d, f"{tag}.json")
+        json.dump([j1, j2, mk(1, "x", it1), mk(2, "y", it2)], open(fn, "w"))
+        return fn
+
+    def final(tag):
+        out = {}
+        for i in (1, 2):
+            j = json.load(open(os.path.join(d, f"{tag}_ck{i}.json")))
+            for p in j[1:]:
+                out[p["id"]] = [float(v) for v in _flat(p["tensor"])]
+        return out
+    args = ["--dtype", "float64", "-s", "1"]
+    found = []
+    try:
+        run_main([cfg("A", T, T)] + args)                       # uninterrupted
+        want = final("A")
+        run_main([cfg("B", T, N)] + args)                       # stopped while the second runnable is at iteration N
+        for order in ((1, 2), (2, 1)):
+            tag = f"C{order[0]}{order[1]}"
+            fn = cfg(tag, T, T)
+            cks = [a for i in order for a in ("-c", os.path.join(d, f"B_ck{i}.json"))]
+            run_main([fn] + cks + args)
+            got = {}
+            for i in (1, 2):
+                # a runnable that had finished writes no new checkpoint: its parameters are those of its last one
+                fck = os.path.join(d, f"{tag}_ck{i}.json")
+                j = json.load(open(fck if os.path.exists(fck) else os.path.join(d, f"B_ck{i}.json")))
+                for p in j[1:]:
+                    got[p["id"]] = [float(v) for v in _flat(p["tensor"])]
+            bad = [k for k in want if k not in got or any(abs(a - b) > 1e-12 * max(1.0, abs(b))
+                                                          for a, b in zip(got[k], want[k]))]
+            if bad:
+                found.append(("C17:two-runnables:restart-with-several-checkpoint-files",
+                              f"two optimizers, the second interrupted at iteration {N}; restarted with -c "
+                              f"ck{order[0]} -c ck{order[1]}: final {bad} = {[got.get(k) for k in bad]} but the "
+                              f"uninterrupted run ends at {[want[k] for k in bad]}",
+                              dict(order=list(order), got=got, want=want)))
+    except Exception as e:  # noqa
+        found.append((f"C17:two-runnables:raises:{type(e).__name__}", f"{type(e).__name__}: {str(e)[:200]}", {}))
+    return found
+
+
 # --------------------------------------------------------------------------- case lists
 
 OPTIMISERS = [
@@ -1549,6 +1609,9 @@ def run(tier, seed, replay=None):
                              restart_error=o.get("restart_error"),
                              findings=[k for k, _, _ in vs], consequence=notes.get("consequence")))
     tuple_notes = sum(n.get("benign_tuple_to_list", 0) for _, n in evals)
+    for f in two_runnables_check():
+        rep.violation(*f)
+    rep.case(dict(two_runnables=True), nontrivial=True)
     rep.rule = (f"{len(cases)} configurations driven through torchtree.torchtree.main: every torch optimiser "
                 f"(15 settings) alone and with a rotating scheduler, every scheduler expressible in the JSON "
                 f"specification (12) with Adam, parameter groups, an explicit-float32 + full_like parameter, "
